@@ -79,6 +79,18 @@ static long long parse_ll(const char *s) {
   if (!strcmp(s, "here")) return GD_HERE;
   return strtoll(s, NULL, 0);
 }
+static int cb_n = 0, cb_action = GD_SYNTAX_IGNORE;
+static char cb_log[8192];
+static int verif_cb(gd_parser_data_t *pd, void *extra) {
+  (void)extra;
+  size_t l = strlen(cb_log);
+  if (l + 64 < sizeof cb_log) {
+    const char *fn = pd->filename ? strrchr(pd->filename, '/') : NULL;
+    snprintf(cb_log + l, sizeof cb_log - l, " %s:%d:%d", fn ? fn + 1 : "?", pd->linenum, pd->suberror);
+  }
+  cb_n++;
+  return cb_action;
+}
 static unsigned long parse_flags(char **tok, int n) {
   unsigned long f = 0;
   for (int i = 0; i < n; i++) {
@@ -209,6 +221,13 @@ int main(int argc, char **argv) {
       if (D) gd_discard(D);
       D = gd_open(workdir, parse_flags(tok + 1, nt - 1));
       printf("open e=%d", gd_error(D)); tail();
+    } else if (!strcmp(op, "opencb") && nt >= 2) {
+      /* opencb ignore|continue|abort <flags...> : gd_cbopen with a syntax-error callback; prints the callbacks */
+      if (D) gd_discard(D);
+      cb_n = 0; cb_log[0] = 0;
+      cb_action = !strcmp(tok[1], "ignore") ? GD_SYNTAX_IGNORE : !strcmp(tok[1], "continue") ? GD_SYNTAX_CONTINUE : GD_SYNTAX_ABORT;
+      D = gd_cbopen(workdir, parse_flags(tok + 2, nt - 2), verif_cb, NULL);
+      printf("opencb e=%d ncb=%d%s", gd_error(D), cb_n, cb_log); tail();
     } else if (!D) {
       puts("no-dirfile"); fflush(stdout);
     } else if (!strcmp(op, "get") && nt >= 7) {
